@@ -102,3 +102,6 @@ spec fn scan_inv(s: Seq<char>, k: int, before_end_slash: bool, inside: bool, bst
     &&& (bstar ==> end_pos is Some && k >= 1 && s[n - k] == '*' && exists |ke: int| #[trigger] end_at(s, ke) && end_pos->0 as int == suffix_bytes(s, ke) && ke + 1 <= k)
     &&& (bstarstar ==> end_pos is Some && k >= 2 && s[n - k] == '*' && s[n - k + 1] == '*' && exists |ke: int| #[trigger] end_at(s, ke) && end_pos->0 as int == suffix_bytes(s, ke) && ke + 2 <= k)
 }
+
+// what parse_javadoc (three regexes; opaque to the verifier) makes of a comment body: the contracts only say which body
+pub uninterp spec fn spec_parse_javadoc(s: Seq<char>) -> Seq<char>;
